@@ -414,6 +414,16 @@ pub fn read_multi(cache: &Cache, variant: usize, keys: &[u64]) -> Vec<Option<u64
     }
 }
 
+/// Like `read_multi`, but the iterators' output is returned as produced (an iterator that yields fewer or more items than keys is visible).
+pub fn read_multi_raw(cache: &Cache, variant: usize, keys: &[u64]) -> Vec<Option<u64>> {
+    let refs: Vec<&u64> = keys.iter().collect();
+    match variant % 3 {
+        0 => read_multi(cache, 0, keys),
+        1 => cache.multi_get_iterator(refs).collect(),
+        _ => cache.multi_get_map_iterator(refs, |v| v).collect(),
+    }
+}
+
 /// value and expiry (ns) as seen through `get_ref`
 pub fn read_ref(cache: &Cache, key: u64) -> Option<(u64, Option<u128>)> {
     cache.get_ref(&key).map(|r| (*r.value().value_ref(), r.value().expire_after().map(rt::ns_of)))
